@@ -18,7 +18,7 @@ CLAIMED = {
         text='Theorems: the transmit state machine never modifies reception state (C10_tx_preserves_rx) and data frames never modify transmission state (C10_rx_preserves_tx); a Flow Control frame only fills the one-slot mailbox and hands over to the transmit pass (C10_fc_only_mailbox); a pass answering with a Flow Control leaves the transmitter untouched (C10_fc_answer_pass); send()/recv() touch only their own side (C10_user_calls); in every reachable state (any interleaving of micro-steps) a non-idle transmitter or receiver has a running deadline or a frame about to leave: no wedge (C10_no_wedge). Delivery per direction then follows from C01. Tied to /repo by duplex campaigns over interleavings of {A.process, A.process(tx only), B.process, B.process(tx only), deliver A->B, deliver B->A, tick} compared with two extracted model instances.',
         note='PARTIAL proof: non-interference inside one layer and no-wedge are proved; the two-peer joint delivery statement over all interleavings is explored (exhaustively for small scopes in thorough tier, randomly for large), not proved.'),
     'C11': dict(design='4 (C11)',
-        text='One theorem per kind of hit frame: duplicated Single Frame delivered twice without error (C11_dup_single); lost First Frame -> every following Consecutive Frame reported and ignored, nothing delivered (C11_lost_first_frame, induction over the stream); lost or duplicated Consecutive Frame -> sequence gap -> WrongSequenceNumberError, partial message dropped, never delivered (C11_sequence_gap); lost tail / lost Flow Control -> a reception always has a deadline and its expiry abandons it with ConsecutiveFrameTimeoutError (C11_lost_tail_reported), the sender reports FlowControlTimeoutError and fails the request (C11_lost_fc_reported); duplicated ContinueToSend harmless (C11_dup_cts); after the fault the next message is delivered intact from whatever state was left (C11_after_fault). Tied to /repo by exhaustive fault-position campaigns (every frame index of either direction x {drop, duplicate}) on two real peers vs the extracted model.',
+        text='One theorem per kind of hit frame: duplicated Single Frame delivered twice without error (C11_dup_single); lost First Frame -> every following Consecutive Frame reported and ignored, nothing delivered (C11_lost_first_frame, induction over the stream); lost or duplicated Consecutive Frame -> sequence gap -> WrongSequenceNumberError, partial message dropped, never delivered (C11_sequence_gap); lost tail / lost Flow Control -> a reception always has a deadline and its expiry abandons it with ConsecutiveFrameTimeoutError (C11_lost_tail_reported), the sender reports FlowControlTimeoutError and fails the request (C11_lost_fc_reported); duplicated ContinueToSend harmless (C11_dup_cts); after the fault the next message is delivered intact from whatever state was left (C11_after_fault); whatever the faults, every delivery of every run is the data of one Single Frame or of one First Frame plus the in-sequence Consecutive Frames accepted after it - never truncated, merged or corrupted (C11_never_corrupted). Tied to /repo by exhaustive fault-position campaigns (every frame index of either direction x {drop, duplicate}) on two real peers vs the extracted model.',
         note='PARTIAL proof: per-fault-kind theorems; "at most the one hit message is missing" over a whole exchange and the duplicated First Frame case are campaign oracles.'),
     'C02': dict(design='4 (C02)',
         text='Theorems (all configurations, all payloads): every frame of the reference segmentation Spec.Segment.seg is well formed (C02_wellformed); a request that fits produces exactly the Single Frame of the Spec, padded/DLC-rounded as documented (C02_single); otherwise the First Frame of the Spec incl. the 32-bit escape form (C02_first_frame); every later data frame is the next Consecutive Frame of the Spec with the running sequence number (C02_consecutive_frame); refused sends queue nothing (C02_refuse). Tied to /repo by campaigns comparing every emitted frame with the extracted Spec segmentation (cooperative peer, standby/rate-limited, boundary lengths, >4095 escape, 2^32 refusal).',
@@ -30,8 +30,8 @@ CLAIMED = {
         text='Theorems over every reachable state (invariant WF preserved by every micro-step, any inputs): a layer that is transmitting always has the timer that will end the wait running (C04_nowedge); Overflow aborts with OverflowError and failure completion (C04_overflow); Wait frames: wftmax=0 -> UnexpectedFlowControl-free abort, more than wftmax -> MaximumWaitFrameReachedError, otherwise the N_Bs timer restarts (C04_wait0/_wait_max/_wait_ok); no more than blocksize CFs leave without a new CTS (C04_block). Tied to /repo by exhaustive flow-control-letter sequences from 6 start states plus random ones, compared line by line with the extracted model.',
         note='Termination is proved as "some timer is running in every non-idle tx state" plus the timeout theorems of C07; the bound on the number of process() passes is not proved.'),
     'C05': dict(design='4 (C05)',
-        text='Theorems for every configuration, every reachable state and every input frame sequence: process() never raises and the model never reaches its crash value (C05_never_raises); reception reports only the documented error classes (C05_rx_errors_only); the structural invariant WF (13 conjuncts: timers/state agreement, buffer length below announced length, sequence number range, ...) holds in every reachable state (C05_invariant). Tied to /repo by random/garbage traffic campaigns with line-by-line model comparison.',
-        note='"Every delivered payload is justified by frames on the bus" (Justified) is checked by the campaign oracle on every run, not proved.'),
+        text='Theorems for every configuration, every reachable state and every input frame sequence: process() never raises and the model never reaches its crash value (C05_never_raises); reception reports only the documented error classes (C05_rx_errors_only); the structural invariant WF (13 conjuncts: timer/state agreement of both state machines, standby frame, pending flow control, sequence-number range, untouched queued requests, consumed <= size, timer durations) holds in every reachable state (C05_invariant); and every delivery is justified: one frame through _process_rx appends at most one payload, which is the data of that Single Frame or the data of one First Frame followed by the in-sequence Consecutive Frames accepted after it, cut at the announced length and at least that long (C05_justified_step), along EVERY run of micro-steps from the initial state (C05_justified_run, ghost list of contributing frames, induction over the run). Tied to /repo by alphabet-exhaustive, random/garbage and interrupt campaigns with line-by-line model comparison and an independent justification oracle.',
+        note='Frames are lists of integers decoded by the model of PDU parsing (pdu_decode); "justified" is stated on decoded frames.'),
     'C06': dict(design='4 (C06)',
         text='One theorem per documented anomaly, for all states satisfying the stated precondition: the error class raised and the state afterwards (C06_undecodable, _missing_escape, _cf_idle, _wrong_seq, _sf_interrupt, _ff_too_long, _bad_ff_rxdl, _changing_rxdl) and C06_recovery: after any anomaly the receiver is in a state from which the next well-formed stream is reassembled (composition with C03). Tied to /repo by anomaly-injection campaigns at every stream position.',
         note='Anomaly theorems are per-frame; their composition along arbitrary histories is by the invariant of C05 and the campaign.'),
@@ -39,14 +39,14 @@ CLAIMED = {
         text='Theorems: the N_Cr timeout fires iff the receiver waits for a CF and strictly more than the configured time elapsed (or timeout 0) at a check (C07_rx_iff), with its exact effect (C07_rx_effect) and a CF arriving in time is accepted (C07_rx_accept); N_Bs fires only if really elapsed and does fire at the next pass (C07_tx_only_if, C07_tx_fires); idle states have no running protocol timer (C07_idle); the float ms->ns conversion of the implementation is within 1 ns below the exact value for every integer 0..20000 ms (C07_conversion, PrimFloat evaluation inside Coq). Tied to /repo by boundary-instant campaigns (deadline -1/0/+1 ns) on a virtual clock and the exhaustive to_ns table comparison.',
         note='Time is the virtual clock, constant during one process() pass; OS timer jitter is outside the model. Print Assumptions lists only the PrimFloat/PrimInt63 primitives.'),
     'C08': dict(design='4 (C08)',
-        text='Theorems: a CF leaves only when the STmin timer expired (C08_gate) and restarts it at that instant with the same duration (C08_restart); an accepted CTS programs the decoded STmin or the override (C08_programmed); the STmin byte table equals the documented one for all 256 bytes, float computation included (C08_table); STmin 0 never delays (C08_zero). Tied to /repo by campaigns measuring every inter-CF gap on the virtual clock for every STmin byte.',
-        note='The run-level statement "every gap >= stmin" is the composition gate+restart, checked on runs by the campaign; the composed inductive theorem is not stated.'),
+        text='Theorems: a CF leaves only when the STmin timer expired (C08_gate) and restarts it at that instant with the same duration (C08_restart); an accepted CTS programs the decoded STmin or the override (C08_programmed); the STmin byte table equals the documented one for all 256 bytes, float computation included (C08_table); STmin 0 never delays (C08_zero); run level: in EVERY run of micro-steps with non-negative clock ticks each Consecutive Frame leaves at least the separation time held by the STmin timer at that moment after the previous one (C08_pass, C08_run: ghost instant of the last Consecutive Frame, invariant that the STmin timer was restarted at or after it). Tied to /repo by campaigns measuring every inter-CF gap on the virtual clock for every STmin byte.',
+        note='The gap is measured against the timer value in force when the frame leaves (programmed by the last accepted ContinueToSend, C08_programmed); virtual clock, constant during one pass.'),
     'C09': dict(design='4 (C09)',
         text='Theorems for all addresses / identifiers / frames: is_for_me <-> documented reception condition (C09_iff), rejected frames are no-ops of the reception loop (C09_ignore), emitted id/prefix are the documented ones and are accepted by the mirrored address for physical and functional target types (C09_emit_*, C09_mirror), Functional send accepted iff the payload fits a Single Frame and a refused send queues nothing (C09_func*), validation = documented table (C09_validate). The tie to /repo is the exhaustive-per-address table comparison and through-layer campaigns run on every check.',
         note='identifiers quantified over 0 <= id < 2^29; "every emitted frame carries id/prefix" for frames held in rate-limiter standby relies on the tx invariant proved for C02.'),
     'C12': dict(design='4 (C12)',
-        text='Theorems: in every reachable state the transmitter is idle iff no request is active (C12_idle_iff); protocol aborts, stop_sending and reset complete the active request (and for reset every queued one) with failure exactly there (C12_abort, C12_reset); an empty payload completes with success when dequeued (C12_empty); the only events a transmit pass can emit are frames, documented errors and completions (C12_tx_events). Tied to /repo by request-profile campaigns observing each request completion (exactly once, value, instant) line by line against the model, plus real-thread blocking_send scenarios.',
-        note='The blocking wait (threading.Event, worker thread) is exercised by threaded scenarios, not modelled; exactly-once over a whole history is an oracle of the campaign, the theorems give the per-step facts.'),
+        text='Theorems: in every reachable state the transmitter is idle iff no request is active (C12_idle_iff); protocol aborts, stop_sending and reset complete the active request (and for reset every queued one) with failure exactly there (C12_abort, C12_reset); an empty payload completes with success when dequeued (C12_empty); the only events a transmit pass can emit are frames, documented errors and completions (C12_tx_events); run level: along ANY run of micro-steps from the initial state no request is completed twice, every completion concerns a request send() accepted earlier, and a request still queued or active has not been completed (C12_exactly_once: each completion removes exactly one live request, permutation invariant over the run). Tied to /repo by request-profile campaigns observing each request completion (exactly once, value, instant) line by line against the model, plus real-thread blocking_send scenarios.',
+        note='The blocking wait (threading.Event, worker thread) is exercised by threaded scenarios, not modelled; "at least once" (every accepted request is eventually completed) is termination: campaign oracle + C04_nowedge, not a theorem.'),
     'C13': dict(design='4 (C13)',
         text='Theorems: for EVERY schedule of the user threads send() calls the transmit queue holds each thread payloads in that thread order, none twice, none invented (C13_per_thread, C13_complete, C13_queue_grows: induction over the schedule); send() appends and the worker starts the head: FIFO (C13_send_appends, C13_dequeue_head); frames not addressed to the layer are no-ops of the reception loop (C13_noise_ignored). Delivery of the queue content, in order, each once, is C01/C02. Tied to /repo by real-thread campaigns on 4 transports (rxfn(timeout), legacy rxfn(), CanStack, NotifierBasedCanStack on a python-can virtual bus) with perturbed scheduling: the observed order of tx_queue.put is the schedule, the extracted Coq merge for that schedule must equal what the peer delivered; plus threaded full-duplex streaming and a logic-level correspondence campaign for the worker loop body.',
         note='PARTIAL by nature: thread schedules, GIL, OS scheduling and callback latency are sampled, not proved; assumed: queue.Queue is a linearizable FIFO and protocol state is touched only by the worker thread.'),
